@@ -343,6 +343,8 @@ type pendingEntry struct {
 // SetPostChangeHook assigns the supplied hook to all network instance RIBs within
 // the RIB structure.
 func (r *RIB) SetPostChangeHook(fn RIBHookFn) {
+	r.nrMu.Lock()
+	defer r.nrMu.Unlock()
 	r.postChangeHook = fn
 	for _, nir := range r.niRIB {
 		nir.mu.Lock()
